@@ -34,9 +34,9 @@ use crate::verif::sync::Mutex;
 // Additional sync primitives (currently unused)
 // use std::sync::RwLock;
 #[cfg(not(zipora_verif))]
-use std::sync::atomic::{AtomicU32, AtomicUsize, Ordering};
+use std::sync::atomic::{AtomicU32, AtomicU64, AtomicUsize, Ordering};
 #[cfg(zipora_verif)]
-use crate::verif::sync::atomic::{AtomicU32, AtomicUsize};
+use crate::verif::sync::atomic::{AtomicU32, AtomicU64, AtomicUsize};
 #[cfg(zipora_verif)]
 use std::sync::atomic::Ordering;
 // Additional utilities (currently unused)
@@ -186,17 +186,33 @@ impl Default for FreeListHead {
 #[derive(Debug)]
 #[repr(align(64))]
 struct LockFreeFreeListHead {
-    head: AtomicU32,
+    /// Offset of the first free block (low 32 bits, `u32::MAX` = empty) packed with a
+    /// generation counter (high 32 bits) that changes on every successful push or pop,
+    /// so a compare-exchange cannot succeed against a head that was popped and pushed
+    /// back in between (ABA).
+    head: AtomicU64,
     count: AtomicU32,
-    _padding: [u8; 64 - 8], // Ensure 64-byte alignment
+    _padding: [u8; 64 - 12], // Ensure 64-byte alignment
+}
+
+impl LockFreeFreeListHead {
+    #[inline]
+    fn unpack(packed: u64) -> (u32, u32) {
+        (packed as u32, (packed >> 32) as u32)
+    }
+
+    #[inline]
+    fn pack(offset: u32, generation: u32) -> u64 {
+        ((generation as u64) << 32) | offset as u64
+    }
 }
 
 impl Default for LockFreeFreeListHead {
     fn default() -> Self {
         Self {
-            head: AtomicU32::new(u32::MAX),
+            head: AtomicU64::new(Self::pack(u32::MAX, 0)),
             count: AtomicU32::new(0),
-            _padding: [0; 64 - 8],
+            _padding: [0; 64 - 12],
         }
     }
 }
@@ -681,7 +697,8 @@ impl LockFreePool {
             
             // Lock-free compare-exchange loop
             loop {
-                let current_head = head.head.load(Ordering::Acquire);
+                let packed = head.head.load(Ordering::Acquire);
+                let (current_head, generation) = LockFreeFreeListHead::unpack(packed);
                 if current_head == u32::MAX {
                     break; // No free blocks
                 }
@@ -696,8 +713,8 @@ impl LockFreePool {
                 
                 // Try to update head atomically
                 match head.head.compare_exchange_weak(
-                    current_head,
-                    next_head,
+                    packed,
+                    LockFreeFreeListHead::pack(next_head, generation.wrapping_add(1)),
                     Ordering::Release,
                     Ordering::Relaxed
                 ) {
@@ -734,7 +751,8 @@ impl LockFreePool {
             
             // Lock-free insertion
             loop {
-                let current_head = head.head.load(Ordering::Acquire);
+                let packed = head.head.load(Ordering::Acquire);
+                let (current_head, generation) = LockFreeFreeListHead::unpack(packed);
 
                 // Write next pointer into freed block
                 unsafe {
@@ -746,8 +764,8 @@ impl LockFreePool {
                 
                 // Try to update head atomically
                 match head.head.compare_exchange_weak(
-                    current_head,
-                    offset.0,
+                    packed,
+                    LockFreeFreeListHead::pack(offset.0, generation.wrapping_add(1)),
                     Ordering::Release,
                     Ordering::Relaxed
                 ) {
